@@ -145,7 +145,7 @@ CaseResult run_case(Tape &t, long sweep)
 
   bool have_status = false;
   int status = -1;
-  int statuses_returned = 0, calls_after_status = 0;
+  int statuses_returned = 0, calls_after_status = 0, interrupted_calls = 0;
   bool nonzero_ending = false;
   uint64_t h = 0;
 
@@ -163,6 +163,15 @@ CaseResult run_case(Tape &t, long sweep)
     size_t ep0 = w.episodes.size();
     h = mix(h, (uint64_t) o.kind * 8 + (uint64_t) (have_status ? 1 : 0) + (uint64_t) (k.alive ? 2 : 0));
 
+    // one call in eight has its poll or its waitpid interrupted (EINTR): the
+    // call may fail with that error but the handle must be none the worse
+    bool armed = !have_status && t.chance(1, 8) && (o.kind == O_WAIT || o.kind == O_STOP);
+    unsigned fired0 = vs_nth_fired();
+    if (armed) vs_fail_nth(t.coin() ? VS_POLL : VS_WAITPID, 0);
+    auto was_interrupted = [&]() {
+      vs_fail_nth(-1, -1);
+      return vs_nth_fired() != fired0;
+    };
     if (o.kind == O_WAIT) {
       int to = o.timeout;
       int64_t end;
@@ -175,6 +184,11 @@ CaseResult run_case(Tape &t, long sweep)
       }
       int r = reproc_wait(ch.p, to);
       int64_t ret_at = w.now;
+      if (was_interrupted() && r == -EINTR) {
+        interrupted_calls++;
+        if (!vs_is_live(ch.pid)) fail("reaped-but-error", "wait returned -EINTR although the child was reaped by it");
+        continue;
+      }
       if (have_status) {
         calls_after_status++;
         if (r != status) fail("status-changed", "wait returned " + std::to_string(r) + " after the status " + std::to_string(status) + " had been returned");
@@ -215,6 +229,19 @@ CaseResult run_case(Tape &t, long sweep)
       reproc_stop_actions sa = { { (REPROC_STOP) o.act[0].action, o.act[0].timeout }, { (REPROC_STOP) o.act[1].action, o.act[1].timeout }, { (REPROC_STOP) o.act[2].action, o.act[2].timeout } };
       int r = reproc_stop(ch.p, sa);
       int64_t ret_at = w.now;
+      if (was_interrupted()) {
+        // C07 judges what an interrupted stop must do; here only the aftermath matters
+        interrupted_calls++;
+        if (r >= 0 && !vs_is_live(ch.pid)) {
+          have_status = true;
+          status = r;
+          statuses_returned++;
+          if (r != k.expected_status) fail("wrong-status", "stop returned " + std::to_string(r) + ", the child ended with " + std::to_string(k.expected_status));
+        } else if (r >= 0) {
+          fail("status-while-running", "stop returned status " + std::to_string(r) + " although the child had not been reaped");
+        }
+        continue;
+      }
       if (have_status) {
         calls_after_status++;
         if (r != status) fail("status-changed", "stop returned " + std::to_string(r) + " after the status " + std::to_string(status) + " had been returned");
@@ -286,6 +313,7 @@ CaseResult run_case(Tape &t, long sweep)
   res.nontrivial = calls_after_status > 0 || nonzero_ending;
   res.hash = mix(h, (uint64_t) c.ending_kind | (uint64_t) c.code << 2 | (uint64_t) c.sig << 10 | (uint64_t) c.term_mode << 16 | (uint64_t) (c.deadline != 0) << 17);
   if (calls_after_status > 0) res.cls("call-after-status");
+  if (interrupted_calls > 0) res.cls("interrupted-call");
   if (nonzero_ending) res.cls("nonzero-status");
   if (have_status && status > 128 && c.ending_kind == 1) res.cls("ended-by-own-signal");
   if (have_status && (status == 143 || status == 137) && c.ending_kind != 1) res.cls("ended-by-library-signal");
